@@ -140,7 +140,7 @@ def _interference_calls(contract, vals, stubs, rng, k=4, exhaustive=False):
         undo()
 
 
-def bounded_contract(contract, seed, n=300, budget_s=20.0, prf_corners=True):
+def bounded_contract(contract, seed, n=300, budget_s=20.0, prf_corners=True, ignore=()):
     rng = random.Random(seed * 7919 + zlib.crc32(type(contract).__name__.encode()) % 1000)     # (str hash is salted per process)
     t0 = time.time()
     evals = 0
@@ -192,6 +192,8 @@ def bounded_contract(contract, seed, n=300, budget_s=20.0, prf_corners=True):
             skipped += 1
             continue
         evals += 1
+        if r.get("confirmed") and ignore and set(r.get("failed") or ["?"]) <= set(ignore):
+            continue            # only clauses listed as known findings failed: reported by the deductive item
         if r.get("confirmed"):
             return dict(verdict="VIOLATED", evaluations=evals, model=vals, stubs=stubs, replay=r,
                         bound=f"{n} seeded samples (boundary corpus + random), seed {seed}")
